@@ -40,7 +40,7 @@ pub fn tx_as_dyn_mut<'a, 'b>(x: &'a mut StorageTransaction<'b>) -> (r: &'a mut d
     closed spec fn view(&self) -> St { overlay(self.storage.view(), self.local_state@) }
 //@ fn src/transactions.rs :: Storage for StorageTransaction :: get
 //@   ret r
-//@   ensures [C06.get.overlay,C10,C08] match r { Some(v) => self.view().contains_key(key@) && self.view()[key@] == v@, None => !self.view().contains_key(key@) }
+//@   ensures [C06.get.overlay,C10,C08,C02] match r { Some(v) => self.view().contains_key(key@) && self.view()[key@] == v@, None => !self.view().contains_key(key@) }
 //@   begin proof { axiom_vec_u8_key_laws(); lemma_lookup(self.local_state@, key); }
 //@ end
 //@ fn src/transactions.rs :: Storage for StorageTransaction :: range
@@ -49,14 +49,14 @@ pub fn tx_as_dyn_mut<'a, 'b>(x: &'a mut StorageTransaction<'b>) -> (r: &'a mut d
 //@   replace "Box<dyn Iterator<Item = Record> + 'b>" => "RecordIter<'b>"
 //@ end
 //@ fn src/transactions.rs :: Storage for StorageTransaction :: set
-//@   ensures [C06.set.view,C10,C08] final(self).view() == old(self).view().insert(key@, value@)
+//@   ensures [C06.set.view,C10,C08,C02] final(self).view() == old(self).view().insert(key@, value@)
 //@   ensures [C06.set.keeps_wf,C01] old(self).wf() ==> final(self).wf()
 //@   ensures [C06.set.base_untouched,C01] final(self).base_view() == old(self).base_view()
 //@   begin broadcast use axiom_vec_u8_ext_b; proof { axiom_vec_u8_key_laws(); }
 //@   after? "self.rep_log.append(op);" proof { lemma_overlay_insert(self.storage.view(), old(self).local_state@, op); lemma_apply_ops_push(self.storage.view(), old(self).rep_log.ops(), op); }
 //@ end
 //@ fn src/transactions.rs :: Storage for StorageTransaction :: remove
-//@   ensures [C06.remove.view,C10,C08] final(self).view() == old(self).view().remove(key@)
+//@   ensures [C06.remove.view,C10,C08,C02] final(self).view() == old(self).view().remove(key@)
 //@   ensures [C06.remove.keeps_wf,C01] old(self).wf() ==> final(self).wf()
 //@   ensures [C06.remove.base_untouched,C01] final(self).base_view() == old(self).base_view()
 //@   begin broadcast use axiom_vec_u8_ext_b; proof { axiom_vec_u8_key_laws(); }
